@@ -134,8 +134,21 @@ func Playable(ms *move.Store, b *board.Board) []move.Move {
 	return res
 }
 
-// Enc converts a reference move into the engine's encoding.
-func Enc(m refchess.Move) move.Move { return move.Move(m.Enc()) }
+// Enc converts a reference move into the engine's encoding, through the engine's own constructors (the bit
+// layout of move.Move is the engine's business).
+func Enc(m refchess.Move) move.Move {
+	return move.From(chess.Square(m.From)) | move.To(chess.Square(m.To)) | move.Promo(chess.Piece(m.Promo))
+}
+
+// Key is the reference encoding of an engine move (layout independent); 0xffff for a value that is not what
+// the engine's constructors make of its own from / to / promotion fields (stray bits).
+func Key(m move.Move) uint16 {
+	d := Dec(m)
+	if Enc(d) != m {
+		return 0xffff
+	}
+	return d.Enc()
+}
 
 // Dec converts an engine move into a reference move.
 func Dec(m move.Move) refchess.Move {
@@ -147,7 +160,7 @@ func Dec(m move.Move) refchess.Move {
 func SetDiff(a []move.Move, b []uint16) (onlyA, onlyB, dupA []uint16) {
 	ma := map[uint16]int{}
 	for _, m := range a {
-		ma[uint16(m)]++
+		ma[Key(m)]++
 	}
 	mb := map[uint16]bool{}
 	for _, m := range b {
@@ -176,7 +189,7 @@ func SetDiff(a []move.Move, b []uint16) (onlyA, onlyB, dupA []uint16) {
 func Names(ms []uint16) []string {
 	res := make([]string, len(ms))
 	for i, m := range ms {
-		res[i] = move.Move(m).String()
+		res[i] = refchess.Move{To: int(m & 63), From: int(m >> 6 & 63), Promo: int(m >> 12 & 7)}.String()
 	}
 	return res
 }
@@ -216,8 +229,10 @@ func Consistent(b *board.Board) string {
 		}
 		union |= b.Pieces[p]
 	}
-	if b.Pieces[chess.NoPiece] != 0 {
-		return "Pieces[NoPiece] not empty"
+	// the slot of "no piece" is not a piece-type set; it may be unused (empty) or hold the vacant squares, but
+	// nothing that contradicts the placement
+	if np := b.Pieces[chess.NoPiece]; np != 0 && np != ^union {
+		return "Pieces[NoPiece] is neither empty nor the set of vacant squares"
 	}
 	if b.Colors[0]&b.Colors[1] != 0 {
 		return "colour sets overlap"
